@@ -1,0 +1,24 @@
+// Copyright 2021-present The Atlas Authors. All rights reserved.
+// This source code is licensed under the Apache 2.0 license found
+// in the LICENSE file in the root directory of this source tree.
+
+//go:build verif
+
+package sqlite
+
+import (
+	"os"
+	"strconv"
+	"time"
+)
+
+// simNow is the clock the lock lease is stamped with and checked against. VERIF_NOW=<unix seconds>
+// fixes it for the whole process (the simulator advances it between invocations).
+func simNow() time.Time {
+	if v := os.Getenv("VERIF_NOW"); v != "" {
+		if n, err := strconv.ParseInt(v, 10, 64); err == nil {
+			return time.Unix(n, 0)
+		}
+	}
+	return time.Now()
+}
